@@ -47,14 +47,14 @@ TIERS = {
         solo_seeds=4, pair_maxlen=3, deep_windows=0, incant_maxlen=2,
         quota={(1, 3): 3, (1, 2): 1, (2, 2): 1, (2, 3): 2, (3, 3): 1},
         solo_reuse=[('reuse',)],
-        incant_other=3, deadline_s=600),
+        incant_other=3, deadline_s=300),
     'thorough': dict(
         solo_seeds=8, pair_maxlen=3, deep_windows=6, incant_maxlen=3,
         quota={(1, 3): 10, (1, 2): 4, (2, 2): 2, (2, 3): 6, (3, 3): 2,
                (1, 4): 16, (2, 4): 6, (3, 4): 3, (4, 4): 1},
         solo_reuse=[('reuse',), ('parse', 'reuse'), ('reuse', 'parse'),
                     ('reuse', 'reuse')],
-        incant_other=60, deadline_s=780),
+        incant_other=60, deadline_s=720),
 }
 
 RULE = (
@@ -250,51 +250,67 @@ def Shape(h):
 
 
 def Select(histories, windows, tier):
-  """Returns the histories to replay, in priority order (required first)."""
+  """Returns (required, optional): the histories to replay.  `required` (the
+  baseline recording of every program: fresh process, first seed, parse; all
+  single-process histories of the incantation windows) is always replayed;
+  `optional` is replayed in the returned order until the time budget of the
+  replay phase is used up: the other solo seeds and the soloreuse histories
+  (lane A) interleaved with the window samples (lane B, round robin over
+  windows so that a cut keeps the sample stratified)."""
   cfg = TIERS[tier]
   rng = common.Rng('c13-select')
   by_w = collections.defaultdict(list)
   for h in histories:
     by_w[h['w']].append(h)
-  required, optional_by_w = [], []
+  required, lane_a, samples_by_w = [], [], []
+  first_seed = windows[0]['seeds'][0]
   for wi, w in enumerate(windows):
     hs = by_w[wi]
     if w['tag'] == 'solo':
-      required += hs
+      for h in hs:
+        if h['h'][0]['n'] == first_seed:
+          required.append(h)
+        else:
+          lane_a.append((w['seeds'].index(h['h'][0]['n']), 0, h['id'], h))
     elif w['tag'] == 'soloreuse':
+      patterns = [tuple(x) for x in cfg['solo_reuse']]
       for h in hs:
         segs = Segments(h)
-        if len(segs) == 1 and tuple(m for _, m in segs[0][1]) in [
-            tuple(x) for x in cfg['solo_reuse']]:
-          required.append(h)
+        modes = tuple(m for _, m in segs[0][1])
+        if len(segs) == 1 and modes in patterns:
+          lane_a.append((1 + patterns.index(modes), 1, h['id'], h))
     elif w['tag'] == 'incant3' and tier == 'quick':
       single = [h for h in hs if Shape(h)[0] == 1]
-      optional_by_w.append(rng.sample(single, min(len(single), 12)))
+      samples_by_w.append(rng.sample(single, min(len(single), 12)))
     elif w['tag'] in ('incant', 'incant3'):
       single = [h for h in hs if Shape(h)[0] == 1]
       multi = [h for h in hs if Shape(h)[0] > 1]
       required += single
-      optional_by_w.append(rng.sample(multi, min(len(multi),
-                                                 cfg['incant_other'])))
+      samples_by_w.append(rng.sample(multi, min(len(multi),
+                                                cfg['incant_other'])))
     else:
       groups = collections.defaultdict(list)
       for h in hs:
         groups[Shape(h)].append(h)
       pick = []
-      for shape, k in sorted(cfg['quota'].items(), key=lambda x: (-x[0][1], x[0][0])):
+      for shape, k in sorted(cfg['quota'].items(),
+                             key=lambda x: (-x[0][1], x[0][0])):
         pool = groups.get(shape, [])
         pick += rng.sample(pool, min(k, len(pool)))
-      optional_by_w.append(pick)
-  # round robin over windows, so that a time cut keeps the sample stratified
-  optional = []
-  k = 0
-  while any(optional_by_w):
-    for lst in optional_by_w:
+      samples_by_w.append(pick)
+  lane_a = [x[-1] for x in sorted(lane_a, key=lambda x: x[:3])]
+  lane_b = []
+  depth = max([len(l) for l in samples_by_w] or [0])
+  for k in range(depth):
+    for lst in samples_by_w:
       if k < len(lst):
-        optional.append(lst[k])
-    k += 1
-    if k > max(len(l) for l in optional_by_w):
-      break
+        lane_b.append(lst[k])
+  optional = []
+  for k in range(max(len(lane_a), len(lane_b))):
+    if k < len(lane_a):
+      optional.append(lane_a[k])
+    if k < len(lane_b):
+      optional.append(lane_b[k])
   return required, optional
 
 
@@ -715,8 +731,6 @@ def Coverage(entries, windows, j):
       for k, probe in REC_PROBE.items():
         if k in ks and e['rec_modes'] and probe not in e['rec_modes']:
           ks.discard(k)      # the label by construction is not what happened
-        ks_probe = [kk for kk, pp in REC_PROBE.items()
-                    if pp in e['rec_modes'] and kk in ks]
       status[e['status'].split(':')[0]] += 1
       for k in ks:
         kinds_events[k] += 1
@@ -899,8 +913,9 @@ def Run(tier):
   rc = 1 if violations else 0
   missing = Missing(cov, entries)
   if n_opt_done < len(optional):
-    print('NOTE property=%s %d of %d sampled window histories were not '
-          'replayed: the replay phase passed its %d s budget (loaded machine)'
+    print('NOTE property=%s %d of %d selected histories beyond the baseline '
+          'were not replayed: the replay phase passed its %d s budget (loaded '
+          'machine)'
           % (PROP, len(optional) - n_opt_done, len(optional),
              cfg['deadline_s']), flush=True)
   if missing:
@@ -936,8 +951,8 @@ def Run(tier):
       'trace_tlc_states': j['vstats']['trace_tlc_states'],
       'histories_enumerated_by_tlc': len(histories),
       'histories_replayed': len(j['order']),
-      'histories_required': len(required),
-      'histories_sampled': len(optional),
+      'histories_always_replayed': len(required),
+      'histories_selected_under_time_budget': len(optional),
       'histories_skipped_for_time': len(selected) - len(j['order']),
       'processes_started': len(runner.done),
       'windows': dict(collections.Counter(w['tag'] for w in windows)),
